@@ -14,7 +14,7 @@ KNOWN = {
     "_DependsOn": "switch/case (dependency wrapper)", "CaseWhen": "case", "Coalesce": "coalesce", "Iter": "coll",
     "Map": "map", "FunctionApplication": "fnapp", "PartialApplication": "pipeline step (Pipelines.tla)",
     "PipelineStep": "pipeline step (Pipelines.tla)", "Pipeline": "pipeline (Pipelines.tla)", "WithOptions": "with",
-    "_AllOptions": "alloptions (not in a family yet)", "Cached": "cached", "Logged": "ds (inside)",
+    "_AllOptions": "alloptions (not in a family yet)", "Cached": "cached", "Logged": "logged (family logging) and inside ds",
     "Computation": "ds (inside)", "Overloaded": "ds (inside)", "Dataset": "ds", "Namespace": "namespace (C04 probes)",
     "EvaluatableArgs": "fnapp (inside)", "EvaluatableKwargs": "fnapp (inside)", "EvaluatableArguments": "fnapp (inside)",
     "_DatasetClassMeta": "dataset classes (C19)",
